@@ -507,6 +507,12 @@ class SymbolKindFinder:
                     # {{{ provide a usable error message if no progress
 
                     if not made_progress:
+                        if result.is_changed():
+                            # Kinds changed during this pass, so statements
+                            # seen earlier may come out differently now: go
+                            # over all of them again before giving up.
+                            break
+
                         print("Left-over statements in kind inference:")
                         for phase_name, stmt in stmt_queue_push_buffer:
                             print(f"[{phase_name}] {stmt}")
